@@ -14,7 +14,9 @@ R1  cutoff sites: ``_cutoff`` is stored only by ``_SktimeForecaster._set_cutoff`
 R2  every prediction constructed in the anchored ``_predict`` code is indexed by ``cutoff + steps`` (relative
     horizon) / the requested labels (absolute horizon); delegating forecasters return a member's ``predict``
     result for the *same* ``fh``, combined only index-preservingly; ``_BaseWindowForecaster._predict`` hands the
-    out-of-sample / in-sample part of the horizon to the matching routine and appends in-sample before out-of-sample.
+    out-of-sample / in-sample part of the horizon to the matching routine and appends in-sample before out-of-sample;
+    ``_set_fh`` remembers the validated request itself (no cutoff-dependent conversion frozen at store time) and
+    ``predict`` forecasts exactly the remembered horizon.
 R3  forecast buffers that hold step s at position s-1 are indexed with ``steps - 1``; the recursive buffer has
     length max(steps); statsmodels is asked for [first, last] = (labels - first training label)[[0, -1]].
 R4  label / position discipline: ``.iloc`` only with positions (cv.split, in-sample cutoff positions),
@@ -1410,6 +1412,6 @@ def run(ctx):
     if ctx.tier == "thorough":
         thorough_scope(ctx, repo)
     ctx.floor("R1", 55)
-    ctx.floor("R2", 68)
+    ctx.floor("R2", 82)
     ctx.floor("R3", 21)
     ctx.floor("R4", 22)
